@@ -91,6 +91,13 @@ CHECKS = {
                      "query under a watchdog (termination / acyclicity)",
                 note="states = reference trees reached (the container table is fully observable through the queries); ambiguous config semantics are outside the alphabet",
                 technique="explicit-state enumeration of load histories on the real config host against a reference tree model"),
+    "C16": dict(level="exploration", ref="3/C16",
+                text="6 mapping configurations (nested prefixes, several roots per prefix, root mapping) x request paths from prefix x remainder alphabets "
+                     "(`..`, `.`, empty segments, slash/backslash mixes, absolute physical paths inside and outside the roots, a bait file) x 6 requesters "
+                     "(loadFile, preprocessFile(LineNumbers), execVM, #include at depth 1 and 2); the file actually served (every file holds a token naming "
+                     "itself) is compared with a reference resolver; nothing outside the roots may ever be served",
+                note="trusted: reference resolver in vf/checks/c16.py; one ambiguous class of relative includes is not judged (assumptions)",
+                technique="bounded exhaustive enumeration of mapping configurations x request paths against a reference resolver"),
 }
 
 PENDING_REASON = "check not built yet in this round (planned, see DESIGN.md section 3)"
